@@ -235,9 +235,9 @@ class Output(BaseOutput):
         self.nc.variables["time"][self.local_record_count] = self.timer.nctime()
 
         if self.layout == "dense":
-            # Fill out state.alive, False for unborn particles
-            has_value = np.full(len(state), False)
-            has_value[: len(state)] = state.alive
+            # A living particle is stored in the column of its identifier
+            # (after a warm start the state does not begin with pid = 0)
+            has_value = state.pid[state.alive]
             for var in self.instance_variables:
                 # values = getattr(state, var)
                 self.nc.variables[var][self.local_record_count, has_value] = getattr(
